@@ -20,9 +20,11 @@ EXPLANATION = ('Every explicit two-operand subscript string over {i,j,k} (<=3 bl
                'letters allowed, optional ellipsis at the front, back or after the first letter of each operand), up to letter '
                'renaming, that NumPy einsum accepts is a program. Blocks, x and y are symbolic: z3 decides mv == einsum (oracle: '
                'numpy.einsum on symbol arrays) and, whenever _get_transposed_subscripts returns a string, <A x,y> == <x,A.T y>; '
-               'when it raises nothing is transposed. Shared block array and one block array per leaf are both covered.')
+               'when it raises nothing is transposed - except that a string of the statement\'s family (one contracted letter, one free '
+               'block letter, output = input with the two exchanged; decided without the library) must be transposed. Shared block '
+               'array and one block array per leaf are both covered.')
 FUNCTIONS = ['DenseBlockDiagonalOperator.__init__/mv/transpose', 'DenseBlockDiagonalOperator._parse_subscripts', 'DenseBlockDiagonalOperator._get_transposed_subscripts']
-BOUNDS = {'quick': 'all strings of the family that the transposer accepts (about 490) + seeded 250 others; dims i=2, j=3, k=2, ellipsis = one axis of size 2; '
+BOUNDS = {'quick': 'all strings with one contracted and one free block letter (490, all must be transposed) and any other string the transposer accepts + seeded 250 others; dims i=2, j=3, k=2, ellipsis = one axis of size 2; '
                    'pytree variants for 12 strings (shared block on a pytree, one block per leaf, one block per leaf with leaves of different shapes)',
           'thorough': 'all ~19 000 einsum-valid strings of the family; the transposable ones also with dims i=3, j=2, k=3'}
 STUBS = []
@@ -81,8 +83,21 @@ def enumerate_strings():
                     np.einsum(s, np.zeros(_shape(l)), np.zeros(_shape(r)))
                 except Exception:  # noqa: BLE001
                     continue
-                (tr if _transposed(D, s) is not None else acc).append(s)
+                (tr if (_in_family(s) or _transposed(D, s) is not None) else acc).append(s)
     return tr, acc
+
+
+def _in_family(s):
+    """The statement's family, decided without the library: exactly one contracted letter c (blocks and input, not output), exactly
+    one free block letter f (blocks and output, not input), and the output operand is the input operand with c replaced by f (so the
+    other letters and the ellipsis stand at the same places).  For these strings a rewriting exists (swap c and f in the blocks,
+    exchange input and output), hence the library must transpose them; outside the family it may reject or transpose correctly."""
+    l, r, o = _split(s)
+    sl, sr, so = (set(x.replace('...', '')) for x in (l, r, o))
+    contracted, free = (sl & sr) - so, (sl & so) - sr
+    if len(contracted) != 1 or len(free) != 1:
+        return False
+    return o == r.replace(next(iter(contracted)), next(iter(free)))
 
 
 def _transposed(D, s):
@@ -189,6 +204,9 @@ def run_case(key, twin=False):
         want = jax.tree.map(lambda xl: ein(b, xl), x, is_leaf=E.is_sym)
     res = [('mv', dec.decide(ctx, pairs(got, want, ctx)))]
     transposed = _transposed(D, s)    # None = rejected with an error (any exception)
+    if transposed is None and _in_family(s):
+        return violation(f'{s!r} has a single contracted axis and a single free block axis (output = input with the two letters exchanged) but is not transposed',
+                         signature=f'c14-must-transpose:{s}', kind='must-transpose')
     if transposed is not None:
         try:
             t0 = op0.T
@@ -248,7 +266,7 @@ def replay(key, model, info):
         key, twin = key[1], True
     key = tuple(key)
     kind = info.get('kind')
-    if key[0] == 'parse' or kind in ('ctor', 'struct', 'T-exc', 'T-unusable', 'T-struct'):
+    if key[0] == 'parse' or kind in ('ctor', 'struct', 'T-exc', 'T-unusable', 'T-struct', 'must-transpose'):
         r = run_case(key)
         return r['status'] == 'violation', r.get('what', 'ok')
     _, s, layout = key
